@@ -680,6 +680,9 @@ struct case_runner {
     }
 };
 
+// An operation that does not return (and makes no progress) for 3 s is reported as `<op> hang`.  The stuck thread
+// cannot be recovered, so the rest of the input is skipped (only the `case <id>` headers are echoed, which the
+// framework sees as missing output) and the process exits at once; the oracle turns the `hang` line into a verdict.
 static void watchdog() {
     long last = -1;
     int same = 0;
@@ -687,11 +690,18 @@ static void watchdog() {
         std::this_thread::sleep_for(std::chrono::milliseconds(100));
         long p = g_progress.load();
         if (g_busy.load() && p == last) {
-            if (++same >= 40) {
-                std::cout.flush();
-                fprintf(stderr, "HANG: operation `%s` did not return within 4 s\n", g_where.c_str());
+            if (++same >= 30) {
+                fprintf(stderr, "HANG: operation `%s` did not return within 3 s\n", g_where.c_str());
                 fflush(stderr);
-                _exit(3);
+                auto w = vh::split(g_where);
+                std::cout << (w.empty() ? std::string("?") : w[0]) << " hang\n";
+                std::string line;
+                while (std::getline(std::cin, line)) {
+                    auto w2 = vh::split(line);
+                    if (w2.size() >= 2 && w2[0] == "case") std::cout << "case " << w2[1] << "\n";
+                }
+                std::cout.flush();
+                _exit(0);
             }
         } else {
             same = 0;
